@@ -165,6 +165,9 @@ def _monitor(fl, mode, acts, msg_exc, disc_exc, legacy):
             ok_reasons = ENDS[first_end]
             if first_end in ('deadline-then-send', 'deadline-then-close-packet') and mode != 'polling':
                 ok_reasons = ok_reasons + ('transport close',)      # the WebSocket read itself may time out first (C07)
+            if first_end in ('deadline-then-send', 'deadline-then-close-packet') and mode == 'polling' and \
+                    'poll' in acts[:acts.index(first_end)]:
+                ok_reasons = ok_reasons + ('transport error',)     # a poll left pending times out at the same deadline
             if not legacy and discs[0] not in ok_reasons:
                 return fail(PROP, 'DISCONNECT-REASON', 'first end cause %s, reason %r' % (first_end, discs[0]), **st)
             i = [k for k, a in mine].index('disconnect')
